@@ -45,6 +45,9 @@ func (l *LineFormatPlanner) ProcessTpl(ctx *shared.PlannerContext) error {
 		return err
 	}
 
+	// a prepared plan is processed again by live tailing: start from scratch
+	l.formatStr = ""
+	l.args = nil
 	return l.visitNodes(tpl.Root, l.node)
 }
 
